@@ -28,6 +28,9 @@ RULE = ("each validated parameter x {just inside, exactly on, just outside} each
 EPS = [2.0 ** -30, 1e-9]
 
 
+# counters that every complete run must have incremented (harness self-check, see core.run_check)
+EXPECT_COUNTS = ['probe:', 'structural_probe', 'tw_interval_probe']
+
 def S():
     import scores
     return scores
